@@ -164,6 +164,26 @@ func runC19(r *core.Run) {
 		cl := classOfBin(rs)
 		add(map[string]interface{}{"kind": "matrix", "state": state, "op": op, "class": cl},
 			fmt.Sprintf("state %s, %s: exit %d, %s", state, sql, rs.Exit, firstLine(rs.Stderr)), "outcome:"+state+":"+op+":"+cl)
+		// the same cell with the table named without its extension (another path through the file search)
+		if state != "cwdremoved" {
+			sql2 := strings.ReplaceAll(sql, "`t.csv`", "t")
+			if sql2 != sql {
+				rs2 := sut.RunBin(sut.BinOpts{Csvq: r.Csvq, Dir: dir, Args: append(args, sql2), Timeout: 20 * time.Second})
+				if rs2.IsFatal() {
+					add(map[string]interface{}{"kind": "nofatal", "class": "fatal"}, fmt.Sprintf("state %s, %s: %s", state, sql2, firstLine(rs2.Stderr)), "outcome:"+state+":"+op+":noext:fatal")
+				}
+			}
+		} else {
+			gone := filepath.Join(dir, "gone2")
+			_ = os.MkdirAll(gone, 0755)
+			script := fmt.Sprintf("cd %q && rmdir %q && exec %q --wait-timeout 0.2 --quiet --format JSON %q", gone, gone, r.Csvq, strings.ReplaceAll(sql, "`t.csv`", "t"))
+			cmd := exec.Command("sh", "-c", script)
+			cmd.Env = []string{"HOME=" + dir, "TZ=UTC", "PATH=/usr/bin:/bin"}
+			outb, _ := cmd.CombinedOutput()
+			if strings.Contains(string(outb), "Fatal Error") || strings.Contains(string(outb), "panic:") {
+				add(map[string]interface{}{"kind": "nofatal", "class": "fatal"}, fmt.Sprintf("state %s, table named without extension, %s: %s", state, sql, firstLine(string(outb))), "outcome:"+state+":"+op+":noext:fatal")
+			}
+		}
 		_ = os.RemoveAll(dir)
 		r.Distinct("matrix:" + state + op)
 	}
